@@ -1,6 +1,7 @@
 /* Engine A — argument-product explorer (DESIGN.md 3.A, property C13).
  * Full cross products of per-argument alphabets {valid, NULL, boundary, out-of-range}
  * for every public entry point, and the configuration box around the accepted region. */
+#include <sys/mman.h>
 #include "stripe.h"
 #include <limits.h>
 
@@ -65,15 +66,28 @@ static char *short_frag(struct stripe *s, int i, int which, uint64_t len)
 }
 static void short_free(void) { for (int w = 0; w < 4; w++) for (int i = 0; i < 32; i++) gbuf_free(&shortbuf[w][i]); }
 
+/* a fragment count <= 0 says "no fragments given": the list may then be a zero-length array (its first slot is the PROT_NONE page
+ * after the pointer array) or hold pointers the caller no longer owns (here: into a PROT_NONE page); neither may be looked at */
+static const char *FPN[4] = { "ok", "NULL", "empty", "dangling" };
+static char **frag_list(struct stripe *s, int fp, int n, char **arr)
+{
+    static char *none;
+    if (!none) { none = mmap(NULL, 4096, PROT_NONE, MAP_PRIVATE | MAP_ANONYMOUS, -1, 0); if (none == MAP_FAILED) { perror("mmap"); exit(2); } }
+    if (fp == 1) return NULL;
+    if (fp == 2) return (char **)(s->gptr.p + s->gptr.len);
+    if (fp == 3) for (int i = 0; i < n; i++) arr[i] = none + 64;
+    return arr;
+}
 static void args_decode(struct live *L)
 {
     struct stripe *s = &L->s; int n = s->n, k = s->sh.k;
     int descs[] = { s->desc, L->dead, 0, -1 };
     int nfs[] = { n, k, k - 1, 1, 0, -1, INT_MIN };
     uint64_t fls[] = { s->flen, 79, 0, 1 };
-    for (int di = 0; di < 4; di++) for (int fp = 0; fp < 2; fp++) for (int ni = 0; ni < 7; ni++) for (int fi = 0; fi < 4; fi++)
+    for (int di = 0; di < 4; di++) for (int fp = 0; fp < 4; fp++) for (int ni = 0; ni < 7; ni++) for (int fi = 0; fi < 4; fi++)
     for (int force = 0; force < 2; force++) for (int a = 0; a < 2; a++) for (int b = 0; b < 2; b++) {
-        if (!vh_case_begin("desc=%s,frags=%s,n=%d,flen=%lu,force=%d,out=%s,outlen=%s", DN[di], fp ? "NULL" : "ok", nfs[ni], (unsigned long)fls[fi], force, a ? "NULL" : "ok", b ? "NULL" : "ok")) continue;
+        if (fp >= 2 && nfs[ni] > 0) continue;
+        if (!vh_case_begin("desc=%s,frags=%s,n=%d,flen=%lu,force=%d,out=%s,outlen=%s", DN[di], FPN[fp], nfs[ni], (unsigned long)fls[fi], force, a ? "NULL" : "ok", b ? "NULL" : "ok")) continue;
         char **arr = (char **)(s->gptr.p + s->gptr.len) - n;
         for (int i = 0; i < n; i++) arr[i] = fi ? short_frag(s, i, fi, fls[fi]) : (char *)frag_at(s, GP_END, i);
         int valid = di == 0 && !fp && nfs[ni] >= k && fi == 0 && !a && !b;
@@ -81,7 +95,7 @@ static void args_decode(struct live *L)
         char *out = NULL; uint64_t ol = 0;
         LEDGER_BEGIN;
         vh_op("liberasurecode_decode"); vh_transitions(1);
-        int rc = liberasurecode_decode(descs[di], fp ? NULL : arr, nfs[ni], fls[fi], force, a ? NULL : &out, b ? NULL : &ol);
+        int rc = liberasurecode_decode(descs[di], frag_list(s, fp, n, arr), nfs[ni], fls[fi], force, a ? NULL : &out, b ? NULL : &ol);
         if (valid) {
             if (rc != 0 || (s->sh.be != EC_BACKEND_NULL && (ol != s->len || memcmp(out, s->data, s->len)))) vh_violation("valid-call-refused", "decode with valid arguments returned %d", rc);
             if (rc == 0) { vh_op("liberasurecode_decode_cleanup"); liberasurecode_decode_cleanup(s->desc, out); }
@@ -100,9 +114,10 @@ static void args_reconstruct(struct live *L)
     int nfs[] = { n - 1, k, k - 1, 1, 0, -1, INT_MIN };
     uint64_t fls[] = { s->flen, 79, 0, 1 };
     int dests[] = { 0 /* the missing one */, 1, n - 1, -1, n, n + 1, INT_MAX, INT_MIN, 32, 64 };
-    for (int di = 0; di < 4; di++) for (int fp = 0; fp < 2; fp++) for (int ni = 0; ni < 7; ni++) for (int fi = 0; fi < 4; fi++)
+    for (int di = 0; di < 4; di++) for (int fp = 0; fp < 4; fp++) for (int ni = 0; ni < 7; ni++) for (int fi = 0; fi < 4; fi++)
     for (int de = 0; de < 10; de++) for (int a = 0; a < 2; a++) {
-        if (!vh_case_begin("desc=%s,frags=%s,n=%d,flen=%lu,dest=%d,out=%s", DN[di], fp ? "NULL" : "ok", nfs[ni], (unsigned long)fls[fi], dests[de], a ? "NULL" : "ok")) continue;
+        if (fp >= 2 && nfs[ni] > 0) continue;
+        if (!vh_case_begin("desc=%s,frags=%s,n=%d,flen=%lu,dest=%d,out=%s", DN[di], FPN[fp], nfs[ni], (unsigned long)fls[fi], dests[de], a ? "NULL" : "ok")) continue;
         /* fragment 0 is the one left out; the list holds 1..n-1 */
         char **arr = (char **)(s->gptr.p + s->gptr.len) - n;
         for (int i = 0; i + 1 < n; i++) arr[i] = fi ? short_frag(s, i + 1, fi, fls[fi]) : (char *)frag_at(s, GP_END, i + 1);
@@ -113,7 +128,7 @@ static void args_reconstruct(struct live *L)
         if (!valid) vh_nontrivial();
         LEDGER_BEGIN;
         vh_op("liberasurecode_reconstruct_fragment"); vh_transitions(1);
-        int rc = liberasurecode_reconstruct_fragment(descs[di], fp ? NULL : arr, nfs[ni], fls[fi], dests[de], a ? NULL : (char *)ob);
+        int rc = liberasurecode_reconstruct_fragment(descs[di], frag_list(s, fp, n - 1, arr), nfs[ni], fls[fi], dests[de], a ? NULL : (char *)ob);
         int must_refuse = di != 0 || fp || a || fls[fi] < 80 || !in_range || nfs[ni] <= 0 || nfs[ni] < k;
         if (valid && nfs[ni] == n - 1) { if (rc != 0 || (s->sh.be != EC_BACKEND_NULL && memcmp(ob, enc_frag(s, dests[de]), s->flen))) vh_violation("valid-call-refused", "reconstruct with valid arguments returned %d", rc); }
         else if (must_refuse && rc >= 0) vh_violation("invalid-arguments-accepted", "reconstruct returned %d", rc);
@@ -156,13 +171,14 @@ static void args_misc(struct live *L)
         LEDGER_END("is_invalid_fragment");
     }
     int nfs[] = { n, 1, 0, -1, INT_MIN };
-    for (int di = 0; di < 6; di++) for (int a = 0; a < 2; a++) for (int ni = 0; ni < 5; ni++) {
-        if (!vh_case_begin("verify_stripe/desc=%s,frags=%s,n=%d", DN[di], a ? "NULL" : "ok", nfs[ni])) continue;
+    for (int di = 0; di < 6; di++) for (int a = 0; a < 4; a++) for (int ni = 0; ni < 5; ni++) {
+        if (a >= 2 && nfs[ni] > 0) continue;
+        if (!vh_case_begin("verify_stripe/desc=%s,frags=%s,n=%d", DN[di], FPN[a], nfs[ni])) continue;
         char **arr = (char **)(s->gptr.p + s->gptr.len) - n;
         for (int i = 0; i < n; i++) arr[i] = (char *)frag_at(s, GP_END, i);
         int valid = di == 0 && !a && nfs[ni] > 0; if (!valid) vh_nontrivial();
         LEDGER_BEGIN; vh_op("liberasurecode_verify_stripe_metadata"); vh_transitions(1);
-        int rc = liberasurecode_verify_stripe_metadata(descs[di], a ? NULL : arr, nfs[ni]);
+        int rc = liberasurecode_verify_stripe_metadata(descs[di], frag_list(s, a, n, arr), nfs[ni]);
         if (valid ? rc != 0 : rc >= 0) vh_violation(valid ? "valid-call-refused" : "invalid-arguments-accepted", "verify_stripe_metadata returned %d", rc);
         LEDGER_END("verify_stripe_metadata");
     }
